@@ -199,6 +199,14 @@ def run_case(ctx, case):
                           {"map_values": sorted(mapping.values()), "sps": sps, "path": case["path"]})
             return
 
+        if case["target"].startswith(".tar") and case["mode"] == "roundtrip" and case["path"] is not False \
+                and not case.get("table_schema") and (len(case["jobs"]) + len(str(case["path"]))) % 3 == 0:
+            # the same archive is exported to once more with another layout (tar targets are appended to): every job is
+            # now in it twice, and the import has to notice before it copies anything
+            with contextlib.redirect_stderr(io.StringIO()):
+                _m2, e2 = sig.exc_name(src.export_to, target=target, path=False)
+            if e2 is None:
+                ctx.count("archives_exported_to_twice")
         # ------------------------------------------------------------ import
         dst = sig.new_project(ctx, "dst")
         schema = None
